@@ -1757,8 +1757,48 @@ DIRECTED = [
 ]
 
 
+# structural values of the headers that MapProxy builds its own URLs from, on the paths that use them in different ways (the
+# welcome page is rendered outside the handler's catch-all): a small exhaustive product, run in every run
+SWEEP_HOSTS = ['[::1]:8080', '[::1]', '[2001:db8::17]:80', '[2001:db8::17]:443', 'a:b:c', 'localhost:80', 'localhost:443',
+               'localhost:8080', 'h:', ':80', ':', '::', 'h:80:80', '[::1', '::1]', 'h:-1', 'h: 80', ' h', 'h ', '', 'H.EXAMPLE',
+               'xn--nxasmq6b.example', '1.2.3.4:65536', 'h' * 300, 'a..b', '.', 'h:80:', 'h::80', 'user@h:80', 'h/p:80', 'h,h2:80']
+SWEEP_HEADERS = {'Host': SWEEP_HOSTS, 'X-Forwarded-Host': SWEEP_HOSTS,
+                 'X-Forwarded-Proto': ['', 'https', 'http', 'a:b', ':', 'https,http', 'HTTPS ', 'ws'],
+                 'X-Script-Name': ['', '/', '//', 'a', '/a:b', '/a/', '/a//b', '/a?b', '/a#b', '/%41', '/a b']}
+SWEEP_PATHS = [('app', 'root', '/', ''), ('app', 'empty_path', '', ''),
+               ('wms', 'capabilities_1.1.1', '/service', 'SERVICE=WMS&VERSION=1.1.1&REQUEST=GetCapabilities'),
+               ('wms', 'capabilities_1.3.0', '/service', 'SERVICE=WMS&VERSION=1.3.0&REQUEST=GetCapabilities'),
+               ('wmts', 'capabilities_kvp', '/service', 'SERVICE=WMTS&VERSION=1.0.0&REQUEST=GetCapabilities'),
+               ('wmts_rest', 'capabilities', '/wmts/1.0.0/WMTSCapabilities.xml', ''),
+               ('tms', 'root', '/tms/1.0.0/', ''), ('demo', 'index', '/demo/', ''), ('demo', 'redirect', '/demo', ''),
+               ('kml', 'root_doc', '/kml/cached/EPSG3857/0/0/0.kml', '')]
+
+
+def sweep_items():
+    out = []
+    n = 0
+    for hname in sorted(SWEEP_HEADERS):
+        for v in SWEEP_HEADERS[hname]:
+            for svc, op, path, q in SWEEP_PATHS:
+                for extra in ({}, {'scheme': 'https', 'port': '443'}):
+                    if extra and hname != 'Host':
+                        continue
+                    n += 1
+                    req = {'m': 'GET', 'path': path, 'h': {hname: v}, 'qs': q}
+                    req.update(extra)
+                    twin = {'m': 'GET', 'path': path, 'h': {hname: 'h.example' if 'Host' in hname else ('http' if 'Proto' in hname else '/a')},
+                            'qs': q}
+                    twin.update(extra)
+                    out.append({'scn': 'A', 'svc': svc, 'op': op, 'mut': 'header', 'param': hname, 'marker': None, 'payload': v,
+                                'req': req, 'twin': twin})
+    return out
+
+
 def gen_cases(run):
     yield {'i': -1, 'items': DIRECTED}
+    sw = sweep_items()
+    for k in range(0, len(sw), 40):
+        yield {'i': -2 - k // 40, 'items': sw[k:k + 40], 'must': True}
     n = run.pick(1800, 30000)
     for i in range(n):
         yield {'i': i}
